@@ -538,6 +538,82 @@ async fn seq_case_async(case: u64, rng: &mut Rng, st: &mut Stats, n_stmts: usize
 }
 
 // ---------------------------------------------------------------------------------------------
+// monitor 1b: one element per proposition tuple *per Space*. Two Spaces can hold the same
+// semantic tuple only over endpoints that exist in neither (a reference to a missing element is
+// accepted by design: store/write.rs check_same_space), which is what this workload uses.
+
+fn spaces_case(case: u64, rng: &mut Rng, st: &mut Stats, rounds: usize) {
+    let r = vcore::run::block_on(async {
+        let fx = fixture(Arc::new(InMemory::new()), &format!("c17s_{case}"), true).await?;
+        let mut model: BTreeMap<(String, String, String, String), String> = BTreeMap::new();
+        let mut log = vec![];
+        for _ in 0..rounds {
+            let space = if rng.bool() { DEFAULT_SPACE } else { OTHER_SPACE };
+            let s = format!("C-{}", 90000 + rng.below(3));
+            let o = format!("C-{}", 91000 + rng.below(3));
+            let pred = *rng.pick(&["same_as", "caused_by"]);
+            let mut cmd = Cmd::new(format!("ENSURE PROPOSITION ?p (:s, {}, :o)", jstr(pred))).param("s", json!(s)).param("o", json!(o));
+            cmd.space = Some(space.to_string());
+            let out = exec(&Via::System(&fx.nexus), &cmd).await?;
+            st.eval();
+            let key = (space.to_string(), s.clone(), pred.to_string(), o.clone());
+            log.push(json!({"space": space, "tuple": [s, pred, o], "handle": out.handle("p"), "receipt": out.receipt_status, "error": out.error_code}));
+            let cx = || json!({"case": case, "log": log});
+            if !out.committed() {
+                st.count(&format!("spaces_ensure_refused:{}", out.error_code));
+                continue;
+            }
+            let Some(id) = out.handle("p") else {
+                report_once(st, "C17/identity/ensure_bound_no_handle", &cx);
+                continue;
+            };
+            let sc = scan(&fx.nexus).await?;
+            let row_space = elements(&sc).get(&id).map(|r| r["space"].as_str().unwrap_or("").to_string()).unwrap_or_default();
+            st.count("oracle_tuple_resolves_inside_its_space");
+            if row_space != space {
+                report_once(st, "C17/identity/tuple_resolved_to_an_element_of_another_space", || {
+                    json!({"what": "ENSURE PROPOSITION bound its handle to an element that lives in another Space", "request_space": space, "element": id, "element_space": row_space, "context": cx()})
+                });
+            }
+            match model.get(&key) {
+                Some(known) => {
+                    st.count("spaces_ensure_hit");
+                    if *known != id || out.receipt_status != "no_effect" {
+                        report_once(st, "C17/identity/same_tuple_resolved_to_a_second_element", || json!({"known": known, "got": id, "receipt": out.receipt_status, "context": cx()}));
+                    }
+                }
+                None => {
+                    st.count("spaces_ensure_miss");
+                    if model.values().any(|v| *v == id) && row_space == space {
+                        report_once(st, "C17/identity/two_tuples_resolved_to_one_element", || json!({"got": id, "context": cx()}));
+                    }
+                    model.insert(key.clone(), id.clone());
+                }
+            }
+            if model.keys().any(|k| k.0 != key.0 && k.1 == key.1 && k.2 == key.2 && k.3 == key.3) {
+                st.count("spaces_same_tuple_present_in_both_spaces");
+            }
+        }
+        // each Space sees exactly its own tuples
+        for space in [DEFAULT_SPACE, OTHER_SPACE] {
+            let mut cmd = Cmd::new("FIND(?p.id) WHERE { ?p PROPOSITION (?s, ?pr, ?o) }");
+            cmd.space = Some(space.to_string());
+            let out = exec(&Via::System(&fx.nexus), &cmd).await?;
+            let got: BTreeSet<String> = out.result.as_array().map(|a| a.iter().filter_map(|x| x.as_str().map(|s| s.to_string())).collect()).unwrap_or_default();
+            let want: BTreeSet<String> = model.iter().filter(|(k, _)| k.0 == space).map(|(_, v)| v.clone()).collect();
+            st.count("oracle_space_sees_its_own_tuples");
+            if got != want {
+                report_once(st, "C17/identity/space_does_not_see_exactly_its_own_propositions", || json!({"space": space, "query_answer": got, "ensured": want, "case": case, "log": log}));
+            }
+        }
+        Ok::<(), String>(())
+    });
+    if let Err(e) = r {
+        st.inconclusive(format!("C17 spaces: harness trouble: {e}"));
+    }
+}
+
+// ---------------------------------------------------------------------------------------------
 // monitor 2: atomic visibility under real concurrency (multi-thread runtime)
 
 fn vis_case(case: u64, rng: &mut Rng, st: &mut Stats, rounds: usize, with_preview: bool) {
@@ -782,6 +858,9 @@ fn main() {
     if run.wants("seq") {
         run.parallel("seq", t.pick(120, 4000), 0.6, |c, rng, st| seq_case(c, rng, st, t.pick(14, 18)));
     }
+    if run.wants("spaces") {
+        run.parallel("spaces", t.pick(16, 300), 0.2, |c, rng, st| spaces_case(c, rng, st, 24));
+    }
     if run.wants("vis") {
         // every second case has no PREVIEW among the writer's statements: pending rows seen by a
         // reader there would come from a committing or refused statement
@@ -812,6 +891,9 @@ fn main() {
         run.floor(k, 10);
     }
     run.floor_set("refusal_class_x_position", 30);
+    run.floor("spaces_same_tuple_present_in_both_spaces", 20);
+    run.floor("spaces_ensure_hit", 50);
+    run.floor("oracle_tuple_resolves_inside_its_space", 100);
     run.floor("vis_reads_overlapping_or_following_a_commit", 50);
     run.floor("vis_writer_commits", 50);
     run.floor("crash_prefixes", 100);
